@@ -108,6 +108,12 @@ def bounded_then_cancel(ctx, rep, rule, rule_truth):
     D = r.deadline_attr
     waits = [e for e in an.events('AWAIT_ALL') if e.data['covers_shut'] and not e.data['cancelled']]
     rep.need(rule, len(waits), 1, "waits on the shutdown tasks")
+    from .runrules import deadline_in_helper_object
+    helper = deadline_in_helper_object(ctx, [e.data['timeout'] for e in waits])
+    if helper:
+        rep.error(rule, "the bound of the shutdown phase is kept in a helper object, %s: this rule cannot decide this form"
+                  % helper)
+        waits = []
     dstores = [e for e in an.events('STORE') if e.data['attr'] == D]
     for e in waits:
         t = e.data['timeout']
